@@ -356,3 +356,22 @@ def _in_class(cls, witness):
     if 'any_in' in cls:
         return isinstance(v, (list, str)) and any(x in cls['any_in'] for x in v)
     return False
+
+
+def script_replay(script, default_fn='RUN', extra=()):
+    """replay hook: run a differential adapter under /venv/bin/python on the tree the VCs came from."""
+    def rp(rec, repo, seed):
+        fn = (rec.get('fn') or '').partition(':')[2] or default_fn
+        cmd = [VENV_PY, os.path.join(VERIF, script), '--repo', repo, '--fn', fn, '--seed', str(seed)] + list(extra)
+        env = dict(os.environ)
+        env['PYTHONPATH'] = repo + os.pathsep + VERIF
+        p = subprocess.run(cmd, capture_output=True, text=True, env=env, timeout=900)
+        out = p.stdout.strip().split('\n')[-1] if p.stdout.strip() else ''
+        try:
+            d = json.loads(out)
+        except ValueError:
+            rec['replay_error'] = (p.stderr or p.stdout)[-600:]
+            return None
+        rec['replay_cases'] = d.get('cases')
+        return d.get('failing_input')
+    return rp
